@@ -289,7 +289,7 @@ fn all_configs(max_tags: usize, max_entries: usize) -> Vec<(Vec<Tag>, Vec<usize>
 
 pub fn run() -> i32 {
     let mut r = Report::new("C20");
-    if !cli_available() { r.machinery_errors.push(format!("{} not built", CLI)); return r.finish(); }
+    if !cli_available() { r.machinery_errors.push(format!("{} not built", cli())); return r.finish(); }
     let thorough = r.thorough();
     let (mt, me) = if thorough { (3, 2) } else { (2, 1) };
     r.rule = format!("every config with 1..{} tags: `%` reference of each tag in {{none}} + all tags (so every chain, fork, forward reference, self-loop and longer cycle occurs), word lists on root tags (one or two files), extra word file on pipeline tags or not, {} rule-file entries per tag from 3 rule files of 3 named groups each with filter in {{none, !{{a}}, !{{b,a}}, ~{{c}}, ~{{c,a}}}} spelled with varying case, deromaniser-only alias on some root tags, tags declared in forward and reverse order; the real `asca seq -o -y` is run in a fresh directory and the single file under out/<tag>/ is compared (non-blank lines) with asca::run composed stage by stage by a reference that reads the same files with the harness's own readers; a second run with `-y` over the same directory, after stale lines were appended to every output file, must leave the same files; each tag is also run alone in a fresh copy (cold cache) and must write the same file, and with `-i` one numbered file per entry equal to the reference after that entry; `conv tag -r` must export the concatenated rule history, and running it through the library gives the same words when no words were added mid-pipeline; cyclic configs must be rejected without output within 20 s; plus every forest of depth >= 2 over four tags in all 24 declaration orders (all tags in one invocation, so the cache is shared; roots differ in their deromaniser, and `conv tag -r` of every pipeline tag must export its own root's); rule files contain empty lines after a group name and between sub rules. Non-trivial = comparisons that held on valid configs.", mt, me);
